@@ -1,10 +1,15 @@
 from .common import COMMON_TB
 
 CFG = dict(
-    coq="Properties/C05.v",
+    coq=["Properties/C05.v", "Properties/C05Readers.v"],
     areas=["iofault", "lzmadec"],
     level="proof",
-    theorems_expected=["C05_read_exact_abstracts", "C05_read_exact_short", "C05_write_all_soft", "C05_write_all_prefix"],
+    theorems_expected=["C05_read_exact_abstracts", "C05_read_exact_short", "C05_write_all_soft", "C05_write_all_prefix",
+                       "C05_run_rc_input_monotone", "C05_run_rc_truncated", "C05_lzma_decode_input_monotone", "C05_lzma_decode_truncated",
+                       "C05_lzma1_reader_input_monotone", "C05_lzma1_truncated_raw", "C05_lzma1_truncated_header", "C05_lzma1_read_obs_is_read_all",
+                       "C05_lzma2_reader_truncated_step", "C05_lzma2_truncated", "C05_lzma2_truncated_preset", "C05_lzma2_error_sticky",
+                       "C05_lzip_truncated", "C05_lzip_truncated_written", "C05_lzip_truncated_single_member", "C05_lzip_empty_prefix_known",
+                       "C05_bcj_reader_retry", "C05_delta_reader_short_reads"],
     rule="iofault: (1) random source/sink scripts (data chunks, Interrupted, hard error kinds, EOF / Ok(0)) run through std's read_exact / "
          "write_all and through the extracted Io/Script.v model: results must be identical; (2) for each of 14 formats (lzma1, lzma2, xz, "
          "lzip, delta, 8 BCJ) a stream produced by the crate is read through a source that chops reads and reports Interrupted (output "
